@@ -42,7 +42,7 @@ func checkSysBytes(c *vfw.Ctx, t *testing.T) {
 		w.OnLeak = onLeak
 		bad := func(key, format string, a ...any) {
 			if fail == nil {
-				fail = &failure{key, fmt.Sprintf(format, a...)}
+				fail = &failure{key: key, desc: fmt.Sprintf(format, a...)}
 			}
 		}
 		o := e2.Opts{Active: true, Conn: []hsms.ConnOption{
